@@ -1,0 +1,7 @@
+//go:build !verif
+
+package samlidp
+
+import "sync"
+
+func vhook(string, string, *sync.RWMutex) {}
